@@ -20,7 +20,7 @@ import (
 	"time"
 
 	clog "github.com/33cn/chain33/common/log"
-	"github.com/33cn/chain33/queue"
+	"github.com/33cn/chain33/common/crypto"
 	"github.com/33cn/chain33/types"
 	"github.com/33cn/chain33/util"
 	"verif/vnode"
@@ -34,69 +34,67 @@ const (
 	keyS  = "mavl-vfx-a" // state key of the vfx writers
 	keySy = "mavl-vfy-a" // state key of the vfy writers
 	keyL  = "LODB-vfx-a" // local key of the vfx writers
-	keyLy = "LODB-vfy-a" // local key of the vfy writers (written at block end only)
+	keyLy = "LODB-vfy-a" // local key of the vfy writers (produced at block end only)
 	pfxL  = "LODB-vfx-"
 	fee   = 100000
 	bits  = 0x1f00ffff
 )
 
-// member is one transaction of an item: executor name and program (built for a value).
-type member struct {
+// member kind: executor name and program (built for a value).
+type kind struct {
 	Exec string
-	Kind string
 	Prog func(v string) *vfx.Prog
 }
 
 func st(op, k, v string) vfx.Step { return vfx.Step{Op: op, K: k, V: v} }
 
-// the member kinds
-var kinds = map[string]member{
-	// succeeds: writes state and (ExecLocal, same time) local data
-	"W": {"vfx", "W", func(v string) *vfx.Prog {
+var kinds = map[string]kind{
+	// succeeds: writes state and (ExecLocal at the same time) local data
+	"W": {"vfx", func(v string) *vfx.Prog {
 		return &vfx.Prog{Exec: []vfx.Step{st("set", keyS, v)}, Local: []vfx.Step{st("setl", keyL, v)}}
 	}},
 	// writes state, then Exec returns an error
-	"WF": {"vfx", "WF", func(v string) *vfx.Prog {
+	"WF": {"vfx", func(v string) *vfx.Prog {
 		return &vfx.Prog{Exec: []vfx.Step{st("set", keyS, v), st("fail", "", "")}, Local: []vfx.Step{st("setl", keyL, v)}}
 	}},
 	// writes state, then Exec panics
-	"WP": {"vfx", "WP", func(v string) *vfx.Prog {
+	"WP": {"vfx", func(v string) *vfx.Prog {
 		return &vfx.Prog{Exec: []vfx.Step{st("set", keyS, v), st("panic", "", "")}}
 	}},
 	// Exec succeeds, ExecLocal writes local data and then fails
-	"LF": {"vfx", "LF", func(v string) *vfx.Prog {
+	"LF": {"vfx", func(v string) *vfx.Prog {
 		return &vfx.Prog{Exec: []vfx.Step{st("set", keyS, v)}, Local: []vfx.Step{st("setl", keyL, v), st("fail", "", "")}}
 	}},
-	// as LF, but lists (which saves the buffered local writes into the chain's local transaction) before failing
-	"LLF": {"vfx", "LLF", func(v string) *vfx.Prog {
+	// as LF, but lists (which hands the buffered local writes to the chain's local transaction) before failing
+	"LLF": {"vfx", func(v string) *vfx.Prog {
 		return &vfx.Prog{Exec: []vfx.Step{st("set", keyS, v)}, Local: []vfx.Step{st("setl", keyL, v), st("list", pfxL, ""), st("fail", "", "")}}
 	}},
 	// writes state without reporting the key in the receipt
-	"U": {"vfx", "U", func(v string) *vfx.Prog {
+	"U": {"vfx", func(v string) *vfx.Prog {
 		return &vfx.Prog{Exec: []vfx.Step{st("omit", keyS, v)}, Local: []vfx.Step{st("setl", keyL, v)}}
 	}},
 	// ExecLocal writes local data without returning the key
-	"UL": {"vfx", "UL", func(v string) *vfx.Prog {
+	"UL": {"vfx", func(v string) *vfx.Prog {
 		return &vfx.Prog{Exec: []vfx.Step{st("set", keyS, v)}, Local: []vfx.Step{st("omitl", keyL, v)}}
 	}},
 	// writes (and reports) a key of another executor's namespace
-	"F": {"vfx", "F", func(v string) *vfx.Prog {
+	"F": {"vfx", func(v string) *vfx.Prog {
 		return &vfx.Prog{Exec: []vfx.Step{st("set", keyS, v), st("set", keySy, v)}, Local: []vfx.Step{st("setl", keyL, v)}}
 	}},
 	// reader: reports the state keys and the local key
-	"R": {"vfx", "R", func(v string) *vfx.Prog {
+	"R": {"vfx", func(v string) *vfx.Prog {
 		return &vfx.Prog{Exec: []vfx.Step{st("get", keyS, ""), st("get", keySy, ""), st("getl", keyL, "")}, Tag: v}
 	}},
 	// lister: reports the local keys under the prefix
-	"Ls": {"vfx", "Ls", func(v string) *vfx.Prog {
+	"Ls": {"vfx", func(v string) *vfx.Prog {
 		return &vfx.Prog{Exec: []vfx.Step{st("list", pfxL, "")}, Tag: v}
 	}},
 	// ordinary-order executor: succeeds, local data only at block end
-	"Wy": {"vfy", "Wy", func(v string) *vfx.Prog {
+	"Wy": {"vfy", func(v string) *vfx.Prog {
 		return &vfx.Prog{Exec: []vfx.Step{st("set", keySy, v)}, Local: []vfx.Step{st("setl", keyLy, v)}}
 	}},
 	// ordinary-order executor: writes then fails
-	"WFy": {"vfy", "WFy", func(v string) *vfx.Prog {
+	"WFy": {"vfy", func(v string) *vfx.Prog {
 		return &vfx.Prog{Exec: []vfx.Step{st("set", keySy, v), st("fail", "", "")}, Local: []vfx.Step{st("setl", keyLy, v)}}
 	}},
 }
@@ -112,7 +110,7 @@ func alphabet() []item {
 	for _, k := range []string{"W", "WF", "WP", "LF", "LLF", "U", "UL", "F", "R", "Ls", "Wy", "WFy"} {
 		a = append(a, item{k, []string{k}})
 	}
-	grp := func(ms ...string) { a = append(a, item{"G[" + strings.Join(ms, ",") + "]", ms}) }
+	grp := func(ms ...string) { a = append(a, item{"G[" + strings.Join(ms, " ") + "]", ms}) }
 	grp("W", "W")
 	grp("W", "Wy", "W")
 	for _, f := range []string{"WF", "LLF"} {
@@ -125,13 +123,17 @@ func alphabet() []item {
 	return a
 }
 
+func val(slot, member int) string { return fmt.Sprintf("s%dm%d", slot, member) }
+
 // ---------------------------------------------------------------- reference interpreter
 
-// model is the reference: plain maps.
-type model struct {
-	state map[string]string
-	local map[string]string // local data visible to transactions of the block
-	paid  int64
+const notFound = "ErrNotFound"
+
+// txOutcome is what the reference predicts for one transaction.
+type txOutcome struct {
+	OK       bool
+	Obs      []vfx.Obs
+	EndLocal [][2]string // local pairs the executor hands over at block end
 }
 
 func copyMap(m map[string]string) map[string]string {
@@ -142,39 +144,22 @@ func copyMap(m map[string]string) map[string]string {
 	return c
 }
 
-// txOutcome is what the reference predicts for one transaction.
-type txOutcome struct {
-	OK  bool
-	Obs []vfx.Obs
-	// local pairs the executor hands over at block end
-	EndLocal [][2]string
-}
-
-const notFound = "ErrNotFound"
-
-// runProg interprets one program on tentative copies. It returns false when the transaction fails.
-func runProg(exec string, p *vfx.Prog, state, local map[string]string, out *txOutcome, unsaved map[string]bool) bool {
-	sameTime := exec == "vfx"
+// runProg interprets one program on tentative copies of the state and of the local data visible inside
+// the block. It returns false when the transaction fails. lw records, for fingerprints only, whether a
+// locally written value is still buffered in the executor or was already handed to the chain.
+func runProg(exec string, p *vfx.Prog, state, local map[string]string, out *txOutcome, lw map[string]string) bool {
+	sameTime := exec == vfx.NameX
 	for _, s := range p.Exec {
 		switch s.Op {
-		case "set":
+		case "set", "omit":
 			state[s.K] = s.V
-			if !strings.HasPrefix(s.K, "mavl-"+exec+"-") {
-				defer func() {}() // (kept simple) a foreign key makes the transaction fail, see below
+		case "get", "getl":
+			src := state
+			if s.Op == "getl" {
+				src = local
 			}
-		case "omit":
-			state[s.K] = s.V
-		case "get":
 			o := vfx.Obs{Op: s.Op, K: s.K}
-			if v, ok := state[s.K]; ok {
-				o.V = v
-			} else {
-				o.Err = notFound
-			}
-			out.Obs = append(out.Obs, o)
-		case "getl":
-			o := vfx.Obs{Op: s.Op, K: s.K}
-			if v, ok := local[s.K]; ok {
+			if v, ok := src[s.K]; ok {
 				o.V = v
 			} else {
 				o.Err = notFound
@@ -202,29 +187,28 @@ func runProg(exec string, p *vfx.Prog, state, local map[string]string, out *txOu
 	}
 	// a write that is not reported, or a reported key outside the executor's own namespace, fails the transaction
 	for _, s := range p.Exec {
-		if s.Op == "omit" {
-			return false
-		}
-		if s.Op == "set" && !strings.HasPrefix(s.K, "mavl-"+exec+"-") {
+		if s.Op == "omit" || (s.Op == "set" && !strings.HasPrefix(s.K, "mavl-"+exec+"-")) {
 			return false
 		}
 	}
+	var end [][2]string
 	for _, s := range p.Local {
 		switch s.Op {
 		case "setl":
-			out.EndLocal = append(out.EndLocal, [2]string{s.K, s.V})
+			end = append(end, [2]string{s.K, s.V})
 			if sameTime {
 				local[s.K] = s.V
-				unsaved[s.V] = true
+				lw[s.V] = "buffered"
 			}
 		case "omitl":
 			if sameTime {
+				lw[s.V] = "buffered"
 				return false
 			}
 		case "list":
 			if sameTime {
-				for v := range unsaved {
-					delete(unsaved, v)
+				for v := range lw {
+					lw[v] = "saved"
 				}
 			}
 		case "fail":
@@ -233,36 +217,682 @@ func runProg(exec string, p *vfx.Prog, state, local map[string]string, out *txOu
 			}
 		}
 	}
+	out.EndLocal = end
 	return true
 }
 
-// blockPlan: the concrete transactions of a block and the reference outcome.
-type blockPlan struct {
-	Seq      []string
-	Txs      []*types.Transaction
-	TxItem   []int    // item slot of each transaction
-	TxKind   []string // member kind
-	Outcomes []txOutcome
-	// origin of every value written by the block: value -> "slot:kind"; leak class of failed writers
-	Origin    map[string]string
-	FailedVal map[string]string // value written by a failed item -> "buffered"/"saved" (local) or "state"
-	ItemFails []bool
-	After     model
+// expect is the reference outcome of one block.
+type expect struct {
+	Out         []txOutcome
+	ItemOf      []int
+	State       map[string]string // modelled state keys after the block
+	Local       map[string]string // local data visible at the end of EventExecTxList
+	EndLocal    [][2]string       // pairs handed over at block end, in order
+	Paid        int64
+	FailedState map[string]string // value -> item name
+	FailedLocal map[string]string // value -> "buffered"/"saved"
+	GoodVal     map[string]bool
+	FailedItems int
+	ReadsAfter  int // read steps placed after a failed item
 }
 
-// ---------------------------------------------------------------- environment
+func reference(w *world, al []item, seq []int) *expect {
+	e := &expect{FailedState: map[string]string{}, FailedLocal: map[string]string{}, GoodVal: map[string]bool{}}
+	state, local := copyMap(w.mstate), copyMap(w.mlocal)
+	failedBefore := false
+	for slot, idx := range seq {
+		it := al[idx]
+		ts, tl := copyMap(state), copyMap(local)
+		lw := map[string]string{}
+		outs := make([]txOutcome, len(it.Members))
+		ok := true
+		for j, kn := range it.Members {
+			e.Paid += fee
+			e.ItemOf = append(e.ItemOf, slot)
+			if !ok {
+				continue
+			}
+			k := kinds[kn]
+			if !runProg(k.Exec, k.Prog(val(slot, j)), ts, tl, &outs[j], lw) {
+				ok = false
+			}
+			if failedBefore {
+				e.ReadsAfter += len(outs[j].Obs)
+			}
+		}
+		if ok {
+			state, local = ts, tl
+			for j := range outs {
+				outs[j].OK = true
+				for _, p := range outs[j].EndLocal {
+					e.EndLocal = append(e.EndLocal, p)
+				}
+				e.GoodVal[val(slot, j)] = true
+			}
+		} else {
+			// the only rule for a failed transaction or group: the fee is charged, nothing else
+			for j := range outs {
+				outs[j] = txOutcome{}
+				e.FailedState[val(slot, j)] = it.Name
+			}
+			for v, c := range lw {
+				e.FailedLocal[v] = c
+			}
+			e.FailedItems++
+			failedBefore = true
+		}
+		e.Out = append(e.Out, outs...)
+	}
+	e.State, e.Local = state, local
+	return e
+}
 
-type parentEnv struct {
+// ---------------------------------------------------------------- worlds (parent states)
+
+type world struct {
 	name   string
 	n      *vnode.Node
 	parent *types.Block
 	snap   vnode.Snapshot
-	base   model // state: only the modelled keys; balance handled separately
+	full   map[string]string // whole parent state
+	mstate map[string]string // modelled state keys
+	mlocal map[string]string // modelled local keys
+	acct   string
 	bal    int64
-	full   map[string]string // full parent state
 }
 
-type env struct {
-	cfg     *types.Chain33Config
-	key     = struct{}{}
+var (
+	gkey crypto.PrivKey
+	gcfg *types.Chain33Config
+)
+
+func balanceOf(v string) (int64, int64, bool) {
+	var a types.Account
+	if err := types.Decode([]byte(v), &a); err != nil {
+		return 0, 0, false
+	}
+	return a.Balance, a.Frozen, true
+}
+
+// newWorld starts a node; with snap == nil it builds the parent chain, otherwise it starts from the snapshot.
+func newWorld(name string, from *world) (*world, error) {
+	w := &world{name: name}
+	if from != nil {
+		*w = *from
+		w.n = vnode.New(vnode.Options{Snap: from.snap})
+		if !w.n.WaitHeight(from.parent.Height, 10*time.Second) {
+			return nil, fmt.Errorf("node from snapshot does not reach height %d", from.parent.Height)
+		}
+		return w, nil
+	}
+	w.n = vnode.New(vnode.Options{})
+	if gcfg == nil {
+		gcfg = w.n.Cfg
+		gkey = vnode.Key(vnode.GenesisKeyHex)
+	}
+	if !w.n.WaitHeight(0, 10*time.Second) {
+		return nil, fmt.Errorf("no genesis block")
+	}
+	g, err := w.n.Chain.GetBlock(0)
+	if err != nil {
+		return nil, err
+	}
+	w.parent = g.Block
+	w.mlocal = map[string]string{}
+	if name == "present" {
+		txs := []*types.Transaction{
+			vfx.SignedTx(gcfg, "vfx", &vfx.Prog{Exec: []vfx.Step{st("set", keyS, "old")}, Local: []vfx.Step{st("setl", keyL, "old")}}, fee, 9001, gkey),
+			vfx.SignedTx(gcfg, "vfy", &vfx.Prog{Exec: []vfx.Step{st("set", keySy, "oldy")}, Local: []vfx.Step{st("setl", keyLy, "oldy")}}, fee, 9002, gkey),
+		}
+		b, err := vnode.MakeBlock(w.n, w.parent, txs, bits, 0)
+		if err != nil {
+			return nil, fmt.Errorf("setup block: %v", err)
+		}
+		if err := w.n.Deliver(vnode.Broadcast, b, "setup"); err != nil {
+			return nil, fmt.Errorf("setup block refused: %v", err)
+		}
+		w.parent = b
+		w.mlocal = map[string]string{keyL: "old", keyLy: "oldy"}
+	}
+	w.snap = w.n.Snapshot()
+	w.full = w.n.StateAt(w.parent.StateHash)
+	w.mstate = map[string]string{}
+	for _, k := range []string{keyS, keySy} {
+		if v, ok := w.full[k]; ok {
+			w.mstate[k] = v
+		}
+	}
+	w.acct = "mavl-coins-bty-" + vnode.Addr(gkey)
+	b, _, ok := balanceOf(w.full[w.acct])
+	if !ok || b <= 0 {
+		return nil, fmt.Errorf("sender account %s not found in the parent state", w.acct)
+	}
+	w.bal = b
+	// the parent's local data as the chain answers it
+	for k, want := range map[string]string{keyL: w.mlocal[keyL], keyLy: w.mlocal[keyLy]} {
+		if got := localGet(w.n, k); got != want {
+			return nil, fmt.Errorf("world %s: local %s = %q, want %q", name, k, got, want)
+		}
+	}
+	return w, nil
+}
+
+func (w *world) close() {
+	w.n.Close()
+	w.n.Forget()
+}
+
+func localGet(n *vnode.Node, k string) string {
+	r, err := n.API.LocalGet(&types.LocalDBGet{Keys: [][]byte{[]byte(k)}})
+	if err != nil || r == nil || len(r.Values) == 0 {
+		return ""
+	}
+	return string(r.Values[0])
+}
+
+func localList(n *vnode.Node, prefix string) []string {
+	r, err := n.API.LocalList(&types.LocalDBList{Prefix: []byte(prefix)})
+	if err != nil || r == nil {
+		return nil
+	}
+	var out []string
+	for _, v := range r.Values {
+		out = append(out, string(v))
+	}
+	return out
+}
+
+// ---------------------------------------------------------------- transactions of a block
+
+var txCache = map[[2]int][]*types.Transaction{}
+
+func itemTxs(al []item, idx, slot int) []*types.Transaction {
+	if t, ok := txCache[[2]int{idx, slot}]; ok {
+		return t
+	}
+	it := al[idx]
+	var txs []*types.Transaction
+	for j, kn := range it.Members {
+		k := kinds[kn]
+		nonce := int64(idx*1000 + slot*10 + j + 1)
+		txs = append(txs, vfx.NewTx(gcfg, k.Exec, k.Prog(val(slot, j)), fee, nonce))
+	}
+	if len(txs) == 1 {
+		txs[0].Sign(types.SECP256K1, gkey)
+	} else {
+		g, err := vfx.Group(gcfg, txs, gkey)
+		if err != nil {
+			panic(err)
+		}
+		txs = g
+	}
+	txCache[[2]int{idx, slot}] = txs
+	return txs
+}
+
+func blockTxs(al []item, seq []int) []*types.Transaction {
+	var txs []*types.Transaction
+	for slot, idx := range seq {
+		txs = append(txs, itemTxs(al, idx, slot)...)
+	}
+	return txs
+}
+
+// ---------------------------------------------------------------- real execution and comparison
+
+type finding struct{ FP, What string }
+
+func execTxList(n *vnode.Node, parent *types.Block, txs []*types.Transaction) (*types.Receipts, error) {
+	list := &types.ExecTxList{
+		StateHash: parent.StateHash, ParentHash: parent.Hash(n.Cfg), Txs: txs,
+		BlockTime: parent.BlockTime + 1, Height: parent.Height + 1, Difficulty: bits,
+	}
+	msg := n.Client.NewMessage("execs", types.EventExecTxList, list)
+	if err := n.Client.Send(msg, true); err != nil {
+		return nil, err
+	}
+	resp, err := n.Client.Wait(msg)
+	if err != nil {
+		return nil, err
+	}
+	switch d := resp.GetData().(type) {
+	case *types.Receipts:
+		return d, nil
+	case error:
+		return nil, d
+	}
+	return nil, fmt.Errorf("unexpected reply %T", resp.GetData())
+}
+
+func addBlockLocal(n *vnode.Node, d *types.BlockDetail) (*types.LocalDBSet, error) {
+	msg := n.Client.NewMessage("execs", types.EventAddBlock, d)
+	if err := n.Client.Send(msg, true); err != nil {
+		return nil, err
+	}
+	resp, err := n.Client.Wait(msg)
+	if err != nil {
+		return nil, err
+	}
+	switch d := resp.GetData().(type) {
+	case *types.LocalDBSet:
+		return d, nil
+	case error:
+		return nil, d
+	}
+	return nil, fmt.Errorf("unexpected reply %T", resp.GetData())
+}
+
+func seqNames(al []item, seq []int) []string {
+	var out []string
+	for _, i := range seq {
+		out = append(out, al[i].Name)
+	}
+	return out
+}
+
+func obsText(o []vfx.Obs) string {
+	if len(o) == 0 {
+		return "[]"
+	}
+	b, _ := json.Marshal(o)
+	return string(b)
+}
+
+// classify names the class of a wrong observation for the fingerprint.
+func (e *expect) classifyObs(op string, got vfx.Obs, want vfx.Obs) string {
+	seen := append([]string{}, got.L...)
+	if got.V != "" {
+		seen = append(seen, got.V)
+	}
+	via := map[string]string{"get": "get", "getl": "local-get", "list": "local-list"}[op]
+	for _, v := range seen {
+		if op == "get" {
+			if it, ok := e.FailedState[v]; ok {
+				return "state-write-of-failed-item-visible-to-later-" + via + ":" + it
+			}
+		} else if c, ok := e.FailedLocal[v]; ok {
+			return "local-write-of-failed-item-visible-to-later-" + via + ":" + c + "-at-rollback"
+		} else if _, ok := e.FailedState[v]; ok {
+			return "local-write-of-failed-item-visible-to-later-" + via + ":never-written-per-reference"
+		}
+	}
+	if got.Err != "" && got.Err != notFound {
+		return "later-" + via + "-fails:" + vx.Norm(got.Err, 40)
+	}
+	return "later-" + via + "-misses-or-misreads-a-surviving-write"
+}
+
+// checkBlock executes the block on node n (whose chain tip is w.parent) and compares with the reference.
+func checkBlock(r *vx.Run, w *world, n *vnode.Node, al []item, seq []int, deliver bool) (out []finding) {
+	add := func(fp, f string, a ...interface{}) { out = append(out, finding{fp, fmt.Sprintf(f, a...)}) }
+	e := reference(w, al, seq)
+	txs := blockTxs(al, seq)
+	var sum int64
+	for _, tx := range txs {
+		sum += tx.Fee
+	}
+	if sum != e.Paid {
+		add("HARNESS", "fees of the built transactions %d differ from the reference %d", sum, e.Paid)
+		return
+	}
+	var rc *types.Receipts
+	var err error
+	if p := vx.Catch(func() { rc, err = execTxList(n, w.parent, txs) }); p != "" {
+		err = fmt.Errorf("%s", p)
+	}
+	if err != nil {
+		add("exec-tx-list-fails:"+vx.Norm(err.Error(), 40), "EventExecTxList answered %v", err)
+		return
+	}
+	if len(rc.Receipts) != len(txs) {
+		add("receipt-count", "%d receipts for %d transactions", len(rc.Receipts), len(txs))
+		return
+	}
+	if r != nil {
+		r.Count("executions", 1)
+		r.Count("transitions", int64(len(txs)))
+		r.Count("failed_items", int64(e.FailedItems))
+		r.Count("reads_after_a_failed_item", int64(e.ReadsAfter))
+	}
+	var kvset []*types.KeyValue
+	var rdata []*types.ReceiptData
+	var tys []string
+	for i, rcp := range rc.Receipts {
+		it := al[seq[e.ItemOf[i]]]
+		want := int32(types.ExecPack)
+		if e.Out[i].OK {
+			want = types.ExecOk
+		}
+		tys = append(tys, fmt.Sprint(rcp.Ty))
+		if rcp.Ty != want {
+			add(fmt.Sprintf("receipt-type:%s:want%d-got%d", it.Name, want, rcp.Ty), "transaction %d (item %s): receipt type %d, reference %d; logs %s", i, it.Name, rcp.Ty, want, logText(rcp.Logs))
+		}
+		if !e.Out[i].OK {
+			for _, kv := range rcp.KV {
+				if string(kv.Key) != w.acct {
+					add("failed-receipt-carries-a-write:"+it.Name, "transaction %d (item %s) failed but its receipt carries key %q", i, it.Name, kv.Key)
+				}
+			}
+		}
+		got := vfx.ObsOf(rcp.Logs)
+		if obsText(got) != obsText(e.Out[i].Obs) {
+			fp := "observations-differ"
+			for k := range got {
+				if k < len(e.Out[i].Obs) && vx.J(got[k]) != vx.J(e.Out[i].Obs[k]) {
+					fp = e.classifyObs(got[k].Op, got[k], e.Out[i].Obs[k])
+					break
+				}
+			}
+			if len(got) != len(e.Out[i].Obs) {
+				fp = "observation-count:" + it.Name
+			}
+			add(fp, "transaction %d (item %s) observed %s, reference %s", i, it.Name, obsText(got), obsText(e.Out[i].Obs))
+		}
+		if rcp.Ty != types.ExecErr {
+			kvset = append(kvset, rcp.KV...)
+			rdata = append(rdata, &types.ReceiptData{Ty: rcp.Ty, Logs: rcp.Logs})
+		}
+	}
+	if len(rdata) != len(txs) {
+		return // an ExecErr receipt was already reported above
+	}
+	// the state after the block, through the real store
+	kvset = util.DelDupKey(kvset)
+	root, err := util.ExecKVMemSet(n.Client, w.parent.StateHash, w.parent.Height+1, kvset, true, false)
+	if err == nil {
+		err = util.ExecKVSetCommit(n.Client, root, false)
+	}
+	if err != nil {
+		add("HARNESS", "store refused the write set: %v", err)
+		return
+	}
+	wantState := copyMap(w.full)
+	for k, v := range e.State {
+		wantState[k] = v
+	}
+	gotState := n.StateAt(root)
+	out = append(out, e.compareState(w, gotState, wantState, "state-after-block")...)
+	// local data handed over at block end (EventAddBlock as the blockchain module sends it)
+	blk := &types.Block{Height: w.parent.Height + 1, ParentHash: w.parent.Hash(n.Cfg), BlockTime: w.parent.BlockTime + 1, Txs: txs, StateHash: root, Difficulty: bits}
+	detail := &types.BlockDetail{Block: blk, Receipts: rdata, KV: kvset, PrevStatusHash: w.parent.StateHash}
+	var lset *types.LocalDBSet
+	if p := vx.Catch(func() { lset, err = addBlockLocal(n, detail) }); p != "" {
+		err = fmt.Errorf("%s", p)
+	}
+	if err != nil {
+		add("add-block-fails:"+vx.Norm(err.Error(), 40), "EventAddBlock answered %v", err)
+	} else {
+		var got [][2]string
+		for _, kv := range lset.KV {
+			if strings.HasPrefix(string(kv.Key), "LODB-vfx-") || strings.HasPrefix(string(kv.Key), "LODB-vfy-") {
+				got = append(got, [2]string{string(kv.Key), string(kv.Value)})
+			}
+		}
+		if vx.J(got) != vx.J(e.EndLocal) {
+			fp := "block-end-local-data-differs"
+			for _, p := range got {
+				if _, bad := e.FailedState[p[1]]; bad {
+					fp = "block-end-local-data-of-failed-item:" + e.FailedState[p[1]]
+				}
+			}
+			add(fp, "EventAddBlock returns local pairs %v, reference %v", got, e.EndLocal)
+		}
+	}
+	if r != nil {
+		r.Seen("states", vx.H(w.name, vx.J(gotState[keyS]), vx.J(gotState[keySy]), gotState[w.acct]))
+		r.Seen("distinct", vx.H(w.name, strings.Join(tys, ","), func() string {
+			var sb strings.Builder
+			for _, rcp := range rc.Receipts {
+				sb.WriteString(obsText(vfx.ObsOf(rcp.Logs)))
+			}
+			return sb.String()
+		}()))
+	}
+	if !deliver {
+		return
+	}
+	// the same block produced and delivered through the blockchain module on a fresh node
+	fn, err := newWorld(w.name, w)
+	if err != nil {
+		add("HARNESS", "fresh node: %v", err)
+		return
+	}
+	defer fn.close()
+	var b *types.Block
+	if p := vx.Catch(func() { b, err = vnode.MakeBlock(fn.n, w.parent, txs, bits, 0) }); p != "" {
+		err = fmt.Errorf("%s", p)
+	}
+	if err != nil {
+		add("delivered:block-not-produced:"+vx.Norm(err.Error(), 40), "producing the block on a fresh node: %v", err)
+		return
+	}
+	if err := fn.n.Deliver(vnode.Broadcast, b, "peer"); err != nil {
+		add("delivered:block-refused:"+vx.Norm(err.Error(), 40), "the produced block is refused: %v", err)
+		return
+	}
+	if r != nil {
+		r.Count("delivered_blocks", 1)
+	}
+	d, err := fn.n.Chain.GetBlock(w.parent.Height + 1)
+	if err != nil || d == nil || len(d.Receipts) != len(txs) {
+		add("delivered:block-not-on-chain", "block at height %d: %v", w.parent.Height+1, err)
+		return
+	}
+	for i, rd := range d.Receipts {
+		if rd.Ty != rc.Receipts[i].Ty {
+			add("delivered:receipt-type-differs", "delivered block: receipt %d type %d, EventExecTxList gave %d", i, rd.Ty, rc.Receipts[i].Ty)
+		}
+	}
+	out = append(out, e.compareState(w, fn.n.StateAt(d.Block.StateHash), wantState, "delivered:state-at-tip")...)
+	endLocal := copyMap(w.mlocal)
+	for _, p := range e.EndLocal {
+		endLocal[p[0]] = p[1]
+	}
+	for _, k := range []string{keyL, keyLy} {
+		if got := localGet(fn.n, k); got != endLocal[k] {
+			fp := "delivered:local-data-differs"
+			if it, bad := e.FailedState[got]; bad {
+				fp = "delivered:local-data-of-failed-item-stored:" + it
+			}
+			add(fp, "after the block the chain answers local %s = %q, reference %q", k, got, endLocal[k])
+		}
+	}
+	var wl []string
+	if v, ok := endLocal[keyL]; ok {
+		wl = append(wl, v)
+	}
+	if got := localList(fn.n, pfxL); vx.J(got) != vx.J(wl) {
+		add("delivered:local-list-differs", "after the block the chain lists %v under %s, reference %v", got, pfxL, wl)
+	}
+	return
+}
+
+func logText(logs []*types.ReceiptLog) string {
+	var out []string
+	for _, l := range logs {
+		if l.Ty == types.TyLogErr {
+			out = append(out, string(l.Log))
+		}
+	}
+	return strings.Join(out, "; ")
+}
+
+func (e *expect) compareState(w *world, got, want map[string]string, where string) (out []finding) {
+	keys := map[string]bool{}
+	for k := range got {
+		keys[k] = true
+	}
+	for k := range want {
+		keys[k] = true
+	}
+	var ks []string
+	for k := range keys {
+		ks = append(ks, k)
+	}
+	sort.Strings(ks)
+	for _, k := range ks {
+		g, gok := got[k]
+		x, xok := want[k]
+		if k == w.acct {
+			gb, gf, ok := balanceOf(g)
+			_, wf, _ := balanceOf(x)
+			if !ok || gb != w.bal-e.Paid || gf != wf {
+				out = append(out, finding{where + ":sender-balance-is-not-previous-minus-fees", fmt.Sprintf("sender balance %d (frozen %d), reference %d - %d = %d", gb, gf, w.bal, e.Paid, w.bal-e.Paid)})
+			}
+			continue
+		}
+		if gok == xok && g == x {
+			continue
+		}
+		fp := where + ":differs"
+		if it, bad := e.FailedState[g]; bad && gok {
+			fp = where + ":write-of-failed-item-survives:" + it
+		} else if e.GoodVal[x] {
+			fp = where + ":write-of-successful-item-lost"
+		} else if !xok {
+			fp = where + ":unexpected-key"
+		}
+		out = append(out, finding{fp, fmt.Sprintf("state key %q = %q (present %v), reference %q (present %v)", k, g, gok, x, xok)})
+	}
+	return
+}
+
+// ---------------------------------------------------------------- driver
+
+type kase struct {
+	World   string   `json:"world"`
+	Seq     []string `json:"seq"`
+	Deliver bool     `json:"deliver"`
+}
+
+func idxOf(al []item, names []string) []int {
+	var out []int
+	for _, nm := range names {
+		for i, it := range al {
+			if it.Name == nm {
+				out = append(out, i)
+			}
+		}
+	}
+	return out
+}
+
+func main() {
+	r := vx.Start("C11", "model_checking")
+	clog.SetLogLevel("crit")
+	r.QuietStderr()
+	al := alphabet()
+	maxLen := r.Pick(3, 4)
+	deliverLen := r.Pick(1, 2)
+	r.Rule = fmt.Sprintf("all blocks of 1..%d items over an alphabet of %d items (12 single vfx/vfy programs: write-ok, write-then-Fail, write-then-Panic, local-write-then-Fail (with and without a List before the failure), unreported state write, unreported local write, foreign-key write, reader, lister, ordinary-order write-ok / write-then-Fail; 12 groups of 2-3 members: all succeed, failing member (Exec failure, ExecLocal failure) at every position) x 2 parent states (keys absent, keys holding older values); all writers collide on one state key and one local key per executor; every block executed through EventExecTxList + store commit + EventAddBlock on a real node; blocks of <= %d items also produced and delivered to a fresh node. state = (parent, resulting values of the modelled keys, balance); distinct = (parent, receipt types, observations) classes", maxLen, len(al), deliverLen)
+	r.Assume = []string{
+		"which items fail is an input (returns an error, panics, leaves a write unreported, reports a foreign key, ExecLocal fails); the rules deciding that are C12's",
+		"the synthetic executors produce local data only for ExecOk receipts, as the built-in executors do",
+		"all forks active from height 0 (default local configuration); fee 100000 per transaction, one sender",
+	}
+	if c, ok := r.Replaying(); ok {
+		var k kase
+		if err := json.Unmarshal(c, &k); err != nil {
+			fmt.Println("REPLAY-ERROR", err)
+			r.Finish()
+		}
+		w, err := newWorld(k.World, nil)
+		if err != nil {
+			fmt.Println("HARNESS-ERROR", err)
+			r.Finish()
+		}
+		for _, f := range checkBlock(r, w, w.n, al, idxOf(al, k.Seq), k.Deliver) {
+			fmt.Printf("replay: %s: %s\n", f.FP, f.What)
+			r.Violate(f.FP, f.What, k, nil)
+		}
+		w.close()
+		r.Finish()
+	}
+	nshard := 8
+	if r.Fork(nshard) {
+		r.Floors["executions"] = 1000
+		r.Floors["distinct"] = 50
+		r.Floors["failed_items"] = 1000
+		r.Floors["reads_after_a_failed_item"] = 500
+		r.Floors["delivered_blocks"] = 20
+		r.Finish()
+	}
+	var worlds []*world
+	for _, nm := range []string{"absent", "present"} {
+		w, err := newWorld(nm, nil)
+		if err != nil {
+			fmt.Println("HARNESS-ERROR", err)
+			r.Note("HARNESS-ERROR %v", err)
+			r.Cap("harness error: " + err.Error())
+			r.Finish()
+		}
+		worlds = append(worlds, w)
+	}
+	shard, n := r.Shard()
+	work := 0
+	run := func(seq []int) {
+		// short blocks go to shard 0 (whose findings are merged first: the shortest failing block is the one reported)
+		mine := true
+		if n > 1 {
+			if len(seq) <= 2 {
+				mine = shard == 0
+			} else {
+				work++
+				mine = 1+work%(n-1) == shard
+			}
+		}
+		if !mine {
+			return
+		}
+		for _, w := range worlds {
+			if r.Expired("block enumeration") {
+				return
+			}
+			deliver := len(seq) <= deliverLen
+			k := kase{w.name, seqNames(al, seq), deliver}
+			for _, f := range checkBlock(r, w, w.n, al, seq, deliver) {
+				f := f
+				if f.FP == "HARNESS" {
+					r.Note("HARNESS-ERROR %s: %s", vx.J(k), f.What)
+					r.Cap("harness error")
+					continue
+				}
+				s := append([]int{}, seq...)
+				r.Violate(f.FP, fmt.Sprintf("parent %s, block %v: %s", w.name, k.Seq, f.What), k, func() string {
+					fw, err := newWorld(w.name, w)
+					if err != nil {
+						return ""
+					}
+					defer fw.close()
+					for _, g := range checkBlock(nil, w, fw.n, al, s, deliver) {
+						if g.FP == f.FP {
+							return g.What
+						}
+					}
+					return ""
+				})
+			}
+			r.SampleN(3, k)
+		}
+	}
+	// breadth first: all blocks of 1 item, then 2, ...
+	for l := 1; l <= maxLen; l++ {
+		seq := make([]int, l)
+		var gen func(p int)
+		gen = func(p int) {
+			if p == l {
+				run(seq)
+				return
+			}
+			for i := range al {
+				seq[p] = i
+				gen(p + 1)
+			}
+		}
+		gen(0)
+	}
+	for _, w := range worlds {
+		w.close()
+	}
+	r.Finish()
 }
